@@ -279,6 +279,8 @@ Proof.
   apply app_inj_length in H; [exact H | lia].
 Qed.
 
+Print Assumptions wr_vec_u8_inj.
+
 (* as a whole string (no continuation) wr_vec_u8 is injective unconditionally *)
 Lemma wr_vec_u8_inj_whole : forall a a', wr_vec_u8 a = wr_vec_u8 a' -> a = a'.
 Proof.
@@ -335,6 +337,8 @@ Proof.
   - rewrite !app_nil_r. exact H.
   - subst. reflexivity.
 Qed.
+
+Print Assumptions wr_entries_same_keys_inj.
 
 (* ------------------------------------------------------------------------------------------ *)
 (* 2b. ci_bytes determines the sorted entry list                                                *)
@@ -646,7 +650,7 @@ Theorem ser_svec_prefix_inj : forall {A} (ser : A -> bytes) l l' r r',
 Proof.
   intros A ser l l' r r' L L' F F' H. unfold ser_svec, wr_vec in H. rewrite <- !app_assoc in H.
   apply u32le_prefix_inj in H; try lia. destruct H as [EL H].
-  rewrite !flat_map_wr_map in H. apply wr_seq_inj in H; auto.
+  rewrite (flat_map_wr_map ser l), (flat_map_wr_map ser l') in H. apply wr_seq_inj in H; auto.
   - rewrite !map_length. lia.
   - apply Forall_map. exact F.
   - apply Forall_map. exact F'.
@@ -821,3 +825,58 @@ Proof.
   - right. left. eexists. eexists. split; [exact N | exact H].
 Qed.
 Print Assumptions shuffle_us_binding.
+
+(* the composite forms the entry points use: plain label context, and {mhr, label} context *)
+Theorem schnorr_label_binding : forall B g pub com l g' pub' com' l',
+  schnorr_small B g pub com (ctx_label l) -> schnorr_small B g' pub' com' (ctx_label l') ->
+  small l -> small l' ->
+  schnorr_challenge B g pub com (ctx_label l) = schnorr_challenge B g' pub' com' (ctx_label l') ->
+  (b_ser_e B g = b_ser_e B g' /\ b_ser_e B pub = b_ser_e B pub' /\ b_ser_e B com = b_ser_e B com' /\
+   l = l')
+  \/ (exists x y, x <> y /\ b_hash_to_exp B x = b_hash_to_exp B y).
+Proof.
+  intros B g pub com l g' pub' com' l' S S' Sl Sl' H.
+  apply schnorr_challenge_binding in H; try assumption.
+  destruct H as [(E1 & E2 & E3 & E4)|C]; [left|right; exact C].
+  repeat split; try assumption. apply ctx_label_inj; assumption.
+Qed.
+Print Assumptions schnorr_label_binding.
+
+Theorem schnorr_mhr_label_binding : forall B g pub com m l g' pub' com' m' l',
+  schnorr_small B g pub com (ctx_mhr_label B m l) ->
+  schnorr_small B g' pub' com' (ctx_mhr_label B m' l') ->
+  small (b_ser_e B m) -> small (b_ser_e B m') -> small (wr_vec_u8 l) -> small (wr_vec_u8 l') ->
+  schnorr_challenge B g pub com (ctx_mhr_label B m l) =
+  schnorr_challenge B g' pub' com' (ctx_mhr_label B m' l') ->
+  (b_ser_e B g = b_ser_e B g' /\ b_ser_e B pub = b_ser_e B pub' /\ b_ser_e B com = b_ser_e B com' /\
+   b_ser_e B m = b_ser_e B m' /\ l = l')
+  \/ (exists x y, x <> y /\ b_hash_to_exp B x = b_hash_to_exp B y).
+Proof.
+  intros B g pub com m l g' pub' com' m' l' S S' Sm Sm' Sl Sl' H.
+  apply schnorr_challenge_binding in H; try assumption.
+  destruct H as [(E1 & E2 & E3 & E4)|C]; [left|right; exact C].
+  apply ctx_mhr_label_inj in E4; try assumption. destruct E4 as [E4 E5].
+  repeat split; assumption.
+Qed.
+Print Assumptions schnorr_mhr_label_binding.
+
+Theorem cp_mhr_label_binding :
+  forall B g1 g2 pub1 pub2 com1 com2 m l g1' g2' pub1' pub2' com1' com2' m' l',
+  cp_small B g1 g2 pub1 pub2 com1 com2 (ctx_mhr_label B m l) ->
+  cp_small B g1' g2' pub1' pub2' com1' com2' (ctx_mhr_label B m' l') ->
+  small (b_ser_e B m) -> small (b_ser_e B m') -> small (wr_vec_u8 l) -> small (wr_vec_u8 l') ->
+  cp_challenge B g1 g2 pub1 pub2 com1 com2 (ctx_mhr_label B m l) =
+  cp_challenge B g1' g2' pub1' pub2' com1' com2' (ctx_mhr_label B m' l') ->
+  (b_ser_e B g1 = b_ser_e B g1' /\ b_ser_e B g2 = b_ser_e B g2' /\
+   b_ser_e B pub1 = b_ser_e B pub1' /\ b_ser_e B pub2 = b_ser_e B pub2' /\
+   b_ser_e B com1 = b_ser_e B com1' /\ b_ser_e B com2 = b_ser_e B com2' /\
+   b_ser_e B m = b_ser_e B m' /\ l = l')
+  \/ (exists x y, x <> y /\ b_hash_to_exp B x = b_hash_to_exp B y).
+Proof.
+  intros B g1 g2 pub1 pub2 com1 com2 m l g1' g2' pub1' pub2' com1' com2' m' l' S S' Sm Sm' Sl Sl' H.
+  apply cp_challenge_binding in H; try assumption.
+  destruct H as [(E1 & E2 & E3 & E4 & E5 & E6 & E7)|C]; [left|right; exact C].
+  apply ctx_mhr_label_inj in E7; try assumption. destruct E7 as [E7 E8].
+  repeat split; assumption.
+Qed.
+Print Assumptions cp_mhr_label_binding.
